@@ -71,6 +71,7 @@ class Emitter:
         if ctx is None:
             ctx = Stmts(lw, f)
         ctx.f = f
+        lw.te.lambda_ctx = f.cname
         crt, sig, rt, locals_ = self.signature(f, ctx)
         ctx.ret_t = rt
         con = self.contracts.get(f.cname, {})
